@@ -29,6 +29,8 @@ enum Act {
     Delete(Registered),
     Restart,
     Fork { depth_back: u64, extra: u64, salt: u64 },
+    /// the user asks for a header (or a transaction) of the block `back` below the network's tip; it is fetched by the next ticks
+    Fetch { tx: bool, back: u64 },
 }
 
 #[derive(Clone, Debug)]
@@ -70,10 +72,11 @@ fn gen_history(seed: u64) -> (History, super::super::chain::ChainParams, super::
     let mut acts = vec![Act::SetAll(pick_regs(&mut rng))];
     for _ in 0..rng.range(2, 6) {
         acts.push(Act::Rounds(rng.range(1, 4)));
-        let next = match rng.below(10) {
+        let next = match rng.below(12) {
             0 | 1 | 2 => Act::Grow(rng.range(1, 6)),
             3 => Act::SetAll(pick_regs(&mut rng)),
             4 => Act::Restart,
+            10 | 11 => Act::Fetch { tx: rng.chance(1, 2), back: rng.range(1, 6) },
             5 | 8 | 9 => Act::Fork { depth_back: rng.range(1, 3), extra: rng.range(1, 3), salt: rng.next_u64() | 1 },
             6 => {
                 let mut r = pick_regs(&mut rng);
@@ -96,6 +99,8 @@ fn gen_history(seed: u64) -> (History, super::super::chain::ChainParams, super::
 struct RunResult {
     writes: u64,
     crashed: Option<(u64, &'static str, String)>,
+    /// storage.rs function that was about to write when the process died
+    crash_op: String,
     restart_panic: Option<String>,
     converged: bool,
     rebased_start: bool,
@@ -120,6 +125,7 @@ fn act_label(a: &Act) -> &'static str {
         Act::Delete(_) => "rpc:set_scripts(delete)",
         Act::Restart => "restart",
         Act::Fork { .. } => "fork",
+        Act::Fetch { .. } => "rpc:fetch",
     }
 }
 
@@ -154,6 +160,23 @@ fn do_act(w: &mut World, net: &mut HonestNet, a: &Act, hook: &mut ForkWatch) -> 
             guarded(|| set_scripts(w, r, Some(SetScriptsCommand::All)))
         }
         Act::Delete(r) => guarded(|| set_scripts(w, r, Some(SetScriptsCommand::Delete))),
+        Act::Fetch { tx, back } => {
+            if w.client.is_none() {
+                return Ok(());
+            }
+            use crate::service::{ChainRpc, TransactionRpc};
+            let chain = &w.chains[net.main];
+            let n = chain.tip().saturating_sub(*back).max(1);
+            let b = &chain.blocks[n as usize];
+            let (is_tx, h): (bool, ckb_types::H256) = if *tx { (true, b.transactions().last().map(|t| t.hash()).unwrap_or_else(|| b.hash()).unpack()) } else { (false, b.hash().unpack()) };
+            guarded(|| {
+                if is_tx {
+                    let _ = w.c().rpc_tx().fetch_transaction(h.clone());
+                } else {
+                    let _ = w.c().rpc_chain().fetch_header(h.clone());
+                }
+            })
+        }
         Act::Restart => {
             if w.restart().is_err() {
                 return Ok(());
@@ -192,7 +215,7 @@ fn do_act(w: &mut World, net: &mut HonestNet, a: &Act, hook: &mut ForkWatch) -> 
 /// run the history; crash before write number `crash_at` (1-based) if given
 fn run_history(h: &History, params: &super::super::chain::ChainParams, ccfg: &super::super::client::ClientCfg, crash_at: Option<u64>) -> RunResult {
     let (now, _) = time_base();
-    let counter = Rc::new(RefCell::new((0u64, Vec::<(&'static str, String)>::new(), String::from("open"))));
+    let counter = Rc::new(RefCell::new((0u64, Vec::<(&'static str, String)>::new(), String::from("open"), String::new())));
     let c2 = counter.clone();
     crate::verif_hook::install(Box::new(move |site| {
         if site.starts_with("read:") {
@@ -204,11 +227,13 @@ fn run_history(h: &History, params: &super::super::chain::ChainParams, ccfg: &su
         g.1.push((site, during));
         if Some(g.0) == crash_at {
             let k = g.0;
+            // which storage operation is interrupted (one backtrace per crash run)
+            g.3 = super::super::util::storage_op_from_backtrace();
             drop(g);
             std::panic::panic_any(CrashHere(k, site));
         }
     }));
-    let mut res = RunResult { writes: 0, crashed: None, restart_panic: None, converged: false, rebased_start: false, banned: None, crash_act: None, mismatch: None, stale_matched: false, panic: None, sites: vec![], trace: vec![] };
+    let mut res = RunResult { writes: 0, crashed: None, crash_op: String::new(), restart_panic: None, converged: false, rebased_start: false, banned: None, crash_act: None, mismatch: None, stale_matched: false, panic: None, sites: vec![], trace: vec![] };
     let main = Chain::generate(params.clone(), h.len);
     let mut w = World::new(main, ccfg.clone(), h.seed, now);
     let mut net = HonestNet::new(0);
@@ -251,6 +276,7 @@ fn run_history(h: &History, params: &super::super::chain::ChainParams, ccfg: &su
             let g = counter.borrow();
             let (site, during) = g.1.last().cloned().unwrap_or(("?", "?".into()));
             res.crashed = Some((g.0, site, during));
+            res.crash_op = g.3.clone();
             res.crash_act = if i == 0 { None } else { Some(i - 1) };
             drop(g);
             crate::verif_hook::clear();
@@ -456,7 +482,7 @@ pub fn run(cfg: &RunCfg, out: &Out) {
                 out.count("control_runs_with_clean_restart", 1);
                 if c.mismatch.is_some() || c.panic.is_some() || !c.converged {
                     out.count("mismatch_also_with_clean_restart_at_same_point", 1);
-                    out.cell(&format!("{}|{}|not-attributable-to-the-crash", site, during));
+                    out.cell(&format!("{}:{}|{}|not-attributable-to-the-crash", site, r.crash_op, during));
                     continue;
                 }
             }
@@ -511,8 +537,8 @@ pub fn run(cfg: &RunCfg, out: &Out) {
                 "no-fork".to_string()
             };
             let outcome = if r.restart_panic.is_some() { "restart-panic" } else if r.panic.is_some() { "panic-after-recovery" } else if r.mismatch.is_some() { "answers-differ" } else { "recovered" };
-            out.cell(&format!("{}|{}|{}", site, during, outcome));
-            let detail = json!({"history": h.desc, "crash_before_write": kk, "of": w_total, "site": site, "during": during, "restart_panic": r.restart_panic, "panic": r.panic, "mismatch": r.mismatch, "trace": r.trace,
+            out.cell(&format!("{}:{}|{}|{}", site, r.crash_op, during, outcome));
+            let detail = json!({"history": h.desc, "crash_before_write": kk, "of": w_total, "site": site, "storage_operation": r.crash_op, "during": during, "restart_panic": r.restart_panic, "panic": r.panic, "mismatch": r.mismatch, "trace": r.trace,
                 "writes_before": r.sites.iter().rev().take(6).map(|(s, d)| format!("{}@{}", s, d)).collect::<Vec<_>>()});
             if let Some(_) = &r.restart_panic {
                 // which write sequence was interrupted: previous site -> crashed site
